@@ -8,6 +8,8 @@
      gacross  <seed> <n> <agel> l... <ager> r...
      decreate <seed> <n> lo hi ...
      decross  <seed> <p> <flo> <fhi> <n> <aget> t... <agea> a... <ageb> b... <agec> c...
+   When the part after "|" is the word SEED the operators are run FROM THE SEED of the case line (vita::random::seed)
+   through the modelled engine and libstdc++ distributions; the output then ends with "| <the draws the model made>".
    output:  g <genes> age <a> [n <changed>] [cuts c1 c2 | F <hex>] rest <unconsumed draws>   or  NONE *)
 let f64_of_hex h = F64.of_bits (z_of_hex h)
 let hex_of_f64 f = if F64.is_nan f then "7ff8000000000000" else hex_of_z (F64.to_bits f)
@@ -23,6 +25,13 @@ let rec pairs f = function a :: b :: r -> (f a, f b) :: pairs f r | [] -> [] | _
 let show_ints l = String.concat " " (List.map dec_of_z l)
 let show_f64s l = String.concat " " (List.map hex_of_f64 l)
 let nrest ds = string_of_int (List.length ds)
+let show_draw = function
+  | DInt (lo, hi, v) -> "i:" ^ dec_of_z lo ^ ":" ^ dec_of_z hi ^ ":" ^ dec_of_z v
+  | DReal (lo, hi, v) -> "r:" ^ hex_of_f64 lo ^ ":" ^ hex_of_f64 hi ^ ":" ^ hex_of_f64 v
+  | DBool (p, b) -> "b:" ^ hex_of_f64 p ^ ":" ^ (if b then "1" else "0")
+let show_trace tr = String.concat " " (List.map show_draw tr)
+let fuel = nat_of_int 1000
+let seed_state s = random_seed zero_state (Z.to_N (z_of_int (int_of_string s)))
 
 let () =
   try
@@ -32,8 +41,56 @@ let () =
         match String.index_opt line '|' with
         | Some i -> (String.sub line 0 i, String.sub line (i + 1) (String.length line - i - 1))
         | None -> (line, "") in
-      let ds = List.map parse_draw (split_ws draws) in
+      let seeded = (String.trim draws = "SEED") in
+      let ds = if seeded then [] else List.map parse_draw (split_ws draws) in
       (try
+        if seeded then
+        (match split_ws case with
+         | "gacreate" :: seed :: n :: rest ->
+             let (rg, _) = take (2 * int_of_string n) rest in
+             (match sga_create fuel (pairs zi rg) (seed_state seed) with
+              | Some ((x, _), tr) -> print_endline ("g " ^ show_ints x.ga_genome ^ " age " ^ dec_of_z x.ga_age ^ " rest 0 | " ^ show_trace tr)
+              | None -> print_endline "NONE")
+         | "gamut" :: seed :: pgm :: n :: rest ->
+             let n = int_of_string n in
+             let (rg, rest) = take (2 * n) rest in
+             let (age, rest) = (List.hd rest, List.tl rest) in
+             let (g, _) = take n rest in
+             (match sga_mutation fuel (f64_of_hex pgm) (pairs zi rg) { ga_genome = List.map zi g; ga_age = zi age } (seed_state seed) with
+              | Some (((x, k), _), tr) ->
+                  print_endline ("g " ^ show_ints x.ga_genome ^ " age " ^ dec_of_z x.ga_age ^ " n " ^ dec_of_z k ^ " rest 0 | " ^ show_trace tr)
+              | None -> print_endline "NONE")
+         | "gacross" :: seed :: n :: rest ->
+             let n = int_of_string n in
+             let (agel, rest) = (List.hd rest, List.tl rest) in
+             let (l, rest) = take n rest in
+             let (ager, rest) = (List.hd rest, List.tl rest) in
+             let (r, _) = take n rest in
+             let lhs = { ga_genome = List.map zi l; ga_age = zi agel } in
+             let rhs = { ga_genome = List.map zi r; ga_age = zi ager } in
+             (match sga_crossover fuel lhs rhs (seed_state seed) with
+              | Some ((x, _), tr) -> print_endline ("g " ^ show_ints x.ga_genome ^ " age " ^ dec_of_z x.ga_age ^ " rest 0 | " ^ show_trace tr)
+              | None -> print_endline "NONE")
+         | "decreate" :: seed :: n :: rest ->
+             let (rg, _) = take (2 * int_of_string n) rest in
+             (match sde_create fuel (pairs f64_of_hex rg) (seed_state seed) with
+              | Some ((x, _), tr) -> print_endline ("g " ^ show_f64s x.de_genome ^ " age " ^ dec_of_z x.de_age ^ " rest 0 | " ^ show_trace tr)
+              | None -> print_endline "NONE")
+         | "decross" :: seed :: p :: flo :: fhi :: n :: rest ->
+             let n = int_of_string n in
+             let ind rest =
+               let (age, rest) = (List.hd rest, List.tl rest) in
+               let (g, rest) = take n rest in
+               ({ de_genome = List.map f64_of_hex g; de_age = zi age }, rest) in
+             let (t, rest) = ind rest in
+             let (a, rest) = ind rest in
+             let (b, rest) = ind rest in
+             let (c, _) = ind rest in
+             (match sde_crossover (f64_of_hex p) (f64_of_hex flo) (f64_of_hex fhi) t a b c (seed_state seed) with
+              | Some ((x, _), tr) -> print_endline ("g " ^ show_f64s x.de_genome ^ " age " ^ dec_of_z x.de_age ^ " rest 0 | " ^ show_trace tr)
+              | None -> print_endline "NONE")
+         | _ -> print_endline "BADLINE")
+        else
         (match split_ws case with
          | "gacreate" :: _ :: n :: rest ->
              let (rg, _) = take (2 * int_of_string n) rest in
